@@ -3,6 +3,7 @@ import GrVerif.Model.Pass
 import GrVerif.Proofs.Fsm
 import GrVerif.Model.Position
 import GrVerif.Proofs.IndexPerm
+import GrVerif.Proofs.PassGid
 namespace Driver.Shape
 open GrVerif.Vm GrVerif.Seg GrVerif.Action GrVerif.Pass Driver
 
@@ -83,7 +84,7 @@ def step (line : String) : String :=
     | some ipos, some cls, some ga, some passes, some text =>
       let font : Font := { passes := passes.toArray, ipos := ipos, classes := cls.toArray, gattr := (ga.map List.toArray).toArray,
                            gadv := ((field ws "gadv").bind fun g => ints g ".").getD [] |>.toArray,
-                           cmap := fun ch => if 0x61 ≤ ch ∧ ch ≤ 0x69 then ch - 0x60 else 0,
+                           cmap := synthCmap,
                            silfDir := ((field ws "sdir").bind String.toNat?).getD 0 }
       let dir := ((field ws "dir").bind String.toNat?).getD 0
       match shape font text.toList 100000 dir with
@@ -106,7 +107,7 @@ def step (line : String) : String :=
           let o := pr.2.getPos i
           s!"s:{sl.gid},{sl.before},{sl.after},{sl.original},{posIn l sl.parent},{posIn l sl.child},{posIn l (segF.get i).sibling},{showR o.1},{showR o.2},{sl.advX},{sl.index}"
         let tb := String.join ((ps.splitOn "|").zip passes |>.map fun (src, p) => trieBit p (parsePats src))
-        String.intercalate " " (s!"trie={tb} loop={cx.vIter}/{cx.vBound} passes={cx.vCalls} exceeded={if cx.vExceeded then 1 else 0} noid={if posNoIDCheck font then 1 else 0} n={seg.numGlyphs} walk={l.length} adv={showR pr.1.1},{showR pr.1.2}" :: slots)
+        String.intercalate " " (s!"trie={tb} loop={cx.vIter}/{cx.vBound} passes={cx.vCalls} exceeded={if cx.vExceeded then 1 else 0} noid={if posNoIDCheck font then 1 else 0} gidok={if gidHypCheck font font.gadv.size 9 then 1 else 0} n={seg.numGlyphs} walk={l.length} adv={showR pr.1.1},{showR pr.1.2}" :: slots)
     | _, _, _, _, _ => "bad-op"
   | _, _, _, _, _, _ => "bad-op"
 
